@@ -23,7 +23,7 @@ import (
 )
 
 func TestMain(m *testing.M) {
-	vstat.Rule("Breaker driven to tripped under a frozen clock (gate as handler), then generated arrival patterns during recovery: bursts at one instant, trickles, idle gaps (also before the first post-fallback request), recovery duration from the whole-ms grid, re-admitted requests completing 200 or with failures (re-trip branch), up to 3 trip/recovery cycles per case. Oracle: recovery begins with the first request after T+fallback (it counts); with a passed, d refused, e elapsed, D recovery duration: after every request 2*D*a <= e*(a+d) and a request is refused only if 2*D*(a+1) >= e*(a+d+1) (exact integers; cases within 1e-9 of equality are not asserted because the code computes in float64); recovering->standby only after start+D, the first request after it passes and everything passes from then on, on-standby ran exactly once per cycle; a re-trip shields for a full fallback duration again. Non-trivial: >= 10 requests during a recovery with both outcomes present at >= 3 distinct instants. Later additions: a third of the drivers have side effects that hang; TestC12_LatencyRecovery (latency condition after 70-140 s of healthy history so the 6x10 s window has wrapped, slow phase until the trip, then only fast successful re-admitted requests: no second trip, ramp respected, standby afterwards); TestC12_ConcurrentBurst (bursts of 2-12 requests on real goroutines at one frozen instant of the recovery, the breaker's Logger is a bounded scheduler-yield rendezvous; after every burst passed/total since the recovery began is on or below the ramp).")
+	vstat.Rule("Breaker driven to tripped under a frozen clock (gate as handler), then generated arrival patterns during recovery: bursts at one instant, trickles, idle gaps (also before the first post-fallback request), recovery duration from the whole-ms grid, re-admitted requests completing 200 or with failures (re-trip branch), up to 3 trip/recovery cycles per case. Oracle: recovery begins with the first request after T+fallback (it counts); with a passed, d refused, e elapsed, D recovery duration: after every request 2*D*a <= e*(a+d) and a request is refused only if 2*D*(a+1) >= e*(a+d+1) (exact integers; cases within 1e-9 of equality are not asserted because the code computes in float64); recovering->standby only after start+D, the first request after it passes and everything passes from then on, on-standby ran exactly once per cycle; a re-trip shields for a full fallback duration again. Non-trivial: >= 10 requests during a recovery with both outcomes present at >= 3 distinct instants. Later additions: a third of the drivers have side effects that hang; TestC12_LatencyRecovery (latency condition after 70-140 s of healthy history so the 6x10 s window has wrapped, slow phase until the trip, then only fast successful re-admitted requests: no second trip, ramp respected, standby afterwards); TestC12_ConcurrentBurst (bursts of 2-12 requests on real goroutines at one frozen instant of the recovery, the breaker's Logger is a bounded scheduler-yield rendezvous; after every burst passed/total since the recovery began is on or below the ramp). TestC12_RetripThenHeal: 1-3 recoveries whose first admitted probe fails (re-trip), then a healed backend: no trip on only successful probes, standby after the recovery period; NetworkErrorRatio/ResponseCodeRatio thresholds 0.2-0.5. Odd recovery durations (130/750/1250/3333 ms).")
 	vstat.Main(m.Run)
 }
 
